@@ -1,5 +1,4 @@
 import PsV.Model.FitsBytes
-<<<<<<< HEAD
 /-! Helper lemmas for C08: the byte-level reader is monotone under extension of the file. -/
 namespace PsV.C08
 
@@ -245,1006 +244,3 @@ theorem readTable_core {hs : List Hdu} {v : View} (h : readTable hs = some v) : 
       rw [← h]
 
 end PsV.C08
-=======
-/-!
-# Round-trip theorems for the FITS byte codec (`PsV/Model/FitsBytes.lean`)
-
-* big-endian words: `rd32_be32`, `rd64_be64`, `dec32_enc32`, `dec64_enc64`, `enc32_length`, `enc64_length`
-* decimal text: `parseNat_natStr`, `parseInt_intStr`
-* cards: `fmtCard_length`, `parseCard_fmtCard_plain` (fixed-format non-string values), the mandatory cards
-  `structCards_RT`, and the classes the library writes: `cardRT_int`, `cardRT_string`, `cardRT_commentary`
-* headers: `splitHeader_cards`, `parseStruct_structCards`
-* file level: `decodeHdu_encodeHdu`, `decode_encode` under `HduOK` (pixel count = product of the axes, at most 999
-  axes, axis lengths < 10^20, every *user* card satisfies `CardRT`); `exampleFits_ok` shows the hypotheses are
-  satisfiable.
-
-No definition of the model was changed.
--/
-namespace PsV.Fits.Codec
-
-/-! ## 1. big-endian words -/
-
-theorem rd32_be32' (x : UInt32) :
-    rd32 (UInt8.ofNat (x.toNat / 16777216)) (UInt8.ofNat (x.toNat / 65536 % 256))
-      (UInt8.ofNat (x.toNat / 256 % 256)) (UInt8.ofNat (x.toNat % 256)) = x := by
-  simp only [rd32]; have h := x.toNat_lt; apply UInt32.toNat_inj.mp
-  simp only [UInt8.toNat_ofNat', UInt32.toNat_ofNat']; omega
-
-theorem rd32_be32 (x : UInt32) : ∃ a b c d, be32 x = [a, b, c, d] ∧ rd32 a b c d = x :=
-  ⟨_, _, _, _, rfl, rd32_be32' x⟩
-
-theorem rd64_be64' (x : UInt64) :
-    rd64 (UInt8.ofNat (x.toNat / 72057594037927936)) (UInt8.ofNat (x.toNat / 281474976710656 % 256))
-      (UInt8.ofNat (x.toNat / 1099511627776 % 256)) (UInt8.ofNat (x.toNat / 4294967296 % 256))
-      (UInt8.ofNat (x.toNat / 16777216 % 256)) (UInt8.ofNat (x.toNat / 65536 % 256))
-      (UInt8.ofNat (x.toNat / 256 % 256)) (UInt8.ofNat (x.toNat % 256)) = x := by
-  simp only [rd64]; have h := x.toNat_lt; apply UInt64.toNat_inj.mp
-  simp only [UInt8.toNat_ofNat', UInt64.toNat_ofNat']
-  generalize x.toNat = n at *
-  -- nested divisions by 256 keep `omega` away from the large literals
-  have e2 : n / 65536 = n / 256 / 256 := by simp only [Nat.div_div_eq_div_mul]
-  have e3 : n / 16777216 = n / 256 / 256 / 256 := by simp only [Nat.div_div_eq_div_mul]
-  have e4 : n / 4294967296 = n / 256 / 256 / 256 / 256 := by simp only [Nat.div_div_eq_div_mul]
-  have e5 : n / 1099511627776 = n / 256 / 256 / 256 / 256 / 256 := by simp only [Nat.div_div_eq_div_mul]
-  have e6 : n / 281474976710656 = n / 256 / 256 / 256 / 256 / 256 / 256 := by
-    simp only [Nat.div_div_eq_div_mul]
-  have e7 : n / 72057594037927936 = n / 256 / 256 / 256 / 256 / 256 / 256 / 256 := by
-    simp only [Nat.div_div_eq_div_mul]
-  rw [e2, e3, e4, e5, e6, e7]
-  omega
-
-theorem rd64_be64 (x : UInt64) :
-    ∃ a b c d e f g h, be64 x = [a, b, c, d, e, f, g, h] ∧ rd64 a b c d e f g h = x :=
-  ⟨_, _, _, _, _, _, _, _, rfl, rd64_be64' x⟩
-
-theorem be32_length (x : UInt32) : (be32 x).length = 4 := rfl
-theorem be64_length (x : UInt64) : (be64 x).length = 8 := rfl
-
-theorem enc32_length (l : List UInt32) : (enc32 l).length = 4 * l.length := by
-  induction l with
-  | nil => rfl
-  | cons x xs ih => simp only [enc32, List.length_append, be32_length, ih, List.length_cons]; omega
-
-theorem enc64_length (l : List UInt64) : (enc64 l).length = 8 * l.length := by
-  induction l with
-  | nil => rfl
-  | cons x xs ih => simp only [enc64, List.length_append, be64_length, ih, List.length_cons]; omega
-
-theorem dec32_enc32 (l : List UInt32) (rest : Bytes) : dec32 l.length (enc32 l ++ rest) = some l := by
-  induction l with
-  | nil => rfl
-  | cons x xs ih =>
-    simp only [enc32, be32, List.length_cons, List.cons_append, List.nil_append, dec32, ih, rd32_be32',
-      Option.map_some]
-
-theorem dec64_enc64 (l : List UInt64) (rest : Bytes) : dec64 l.length (enc64 l ++ rest) = some l := by
-  induction l with
-  | nil => rfl
-  | cons x xs ih =>
-    simp only [enc64, be64, List.length_cons, List.cons_append, List.nil_append, dec64, ih, rd64_be64',
-      Option.map_some]
-
-/-! ## 2. decimal text -/
-
-def digits : Str := ['0', '1', '2', '3', '4', '5', '6', '7', '8', '9']
-
-theorem digitChar_mem (n : Nat) : digitChar n ∈ digits := by
-  unfold digitChar; split <;> simp [digits]
-
-theorem digitVal_digitChar : ∀ n, n < 10 → digitVal (digitChar n) = some n := by decide
-
-theorem natStrF_digits : ∀ fuel n, ∀ c ∈ natStrF fuel n, c ∈ digits := by
-  intro fuel
-  induction fuel with
-  | zero => intro n c h; simp [natStrF] at h
-  | succ fuel ih =>
-    intro n c h
-    unfold natStrF at h
-    split at h
-    · simp only [List.mem_singleton] at h; subst h; exact digitChar_mem _
-    · rcases List.mem_append.mp h with h | h
-      · exact ih _ _ h
-      · simp only [List.mem_singleton] at h; subst h; exact digitChar_mem _
-
-theorem natStr_digits (n : Nat) : ∀ c ∈ natStr n, c ∈ digits := natStrF_digits _ _
-
-theorem natStr_ne_nil (n : Nat) : natStr n ≠ [] := by
-  unfold natStr natStrF; split <;> simp
-
-theorem natStrF_length : ∀ fuel n k, 1 ≤ k → n < 10 ^ k → (natStrF fuel n).length ≤ k := by
-  intro fuel
-  induction fuel with
-  | zero => intro n k _ _; simp [natStrF]
-  | succ fuel ih =>
-    intro n k hk hn
-    unfold natStrF
-    split
-    · simpa using hk
-    · rename_i h10
-      match k, hk with
-      | 1, _ => omega
-      | k+2, _ =>
-        have : n / 10 < 10 ^ (k+1) := by
-          rw [Nat.div_lt_iff_lt_mul (by omega)]; rw [Nat.pow_succ] at hn; exact hn
-        have := ih (n / 10) (k+1) (by omega) this
-        simp only [List.length_append, List.length_cons, List.length_nil]; omega
-
-theorem natStr_length (n k : Nat) (hk : 1 ≤ k) (hn : n < 10 ^ k) : (natStr n).length ≤ k :=
-  natStrF_length _ _ _ hk hn
-
-/-- the fold `parseNat` runs -/
-def digitsVal (s : Str) : Option Nat := s.foldlM (fun acc c => (digitVal c).map (acc * 10 + ·)) 0
-
-theorem digitsVal_natStrF : ∀ fuel n, n < 10 ^ fuel → digitsVal (natStrF fuel n) = some n := by
-  intro fuel
-  induction fuel with
-  | zero => intro n h; simp at h; subst h; rfl
-  | succ fuel ih =>
-    intro n hn
-    unfold natStrF
-    split
-    · rename_i h10
-      simp [digitsVal, digitVal_digitChar n h10]
-    · rename_i h10
-      have h1 : n / 10 < 10 ^ fuel := by
-        rw [Nat.div_lt_iff_lt_mul (by omega)]; rw [Nat.pow_succ] at hn; exact hn
-      have := ih _ h1
-      unfold digitsVal at this ⊢
-      rw [List.foldlM_append, this]
-      simp [digitVal_digitChar (n % 10) (Nat.mod_lt _ (by omega))]
-      omega
-
-theorem parseNat_natStr (n : Nat) : parseNat (natStr n) = some n := by
-  unfold parseNat
-  rw [if_neg (natStr_ne_nil n)]
-  have h : n < 10 ^ (n+1) := Nat.lt_of_lt_of_le (Nat.lt_pow_self (by omega)) (Nat.pow_le_pow_right (by omega) (by omega))
-  exact digitsVal_natStrF _ _ h
-
-theorem parseInt_intStr (v : Int) : parseInt (intStr v) = some v := by
-  unfold intStr
-  split
-  · simp only [parseInt, parseNat_natStr]
-    simp only [bind, Option.bind_some, pure, Option.map_some]
-    congr 1; omega
-  · rename_i h
-    have hd := natStr_digits v.natAbs
-    have hne := natStr_ne_nil v.natAbs
-    have hp := parseNat_natStr v.natAbs
-    generalize natStr v.natAbs = s at *
-    match s, hne with
-    | c :: r, _ =>
-      have hc : c ∈ digits := hd c (by simp)
-      have h1 : c ≠ '-' := by intro h; subst h; revert hc; decide
-      have h2 : c ≠ '+' := by intro h; subst h; revert hc; decide
-      unfold parseInt
-      split
-      · rename_i heq; injection heq with a b; exact absurd a h1
-      · rename_i heq; injection heq with a b; exact absurd a h2
-      · rw [hp]
-        simp only [bind, Option.bind_some, pure, Option.map_some]
-        congr 1; omega
-
-/-! ## 3. string helpers -/
-
-theorem dropWhile_replicate_append (p : Char → Bool) (hp : p ' ' = true) (k : Nat) (l : Str) :
-    (List.replicate k ' ' ++ l).dropWhile p = l.dropWhile p := by
-  induction k with
-  | zero => simp
-  | succ k ih => simp only [List.replicate_succ, List.cons_append, List.dropWhile_cons, hp, if_true, ih]
-
-theorem trimRight_nil : trimRight [] = [] := rfl
-
-theorem trimRight_append_blanks (s : Str) (k : Nat) : trimRight (s ++ List.replicate k ' ') = trimRight s := by
-  unfold trimRight
-  rw [List.reverse_append, List.reverse_replicate, dropWhile_replicate_append _ (by simp)]
-
-theorem trimRight_concat (p : Str) (c : Char) (hc : c ≠ ' ') : trimRight (p ++ [c]) = p ++ [c] := by
-  simp [trimRight, hc]
-
-theorem trimRight_of_noBlank (s : Str) (h : ∀ c ∈ s, c ≠ ' ') : trimRight s = s := by
-  rcases List.eq_nil_or_concat s with rfl | ⟨p, c, rfl⟩
-  · rfl
-  · rw [List.concat_eq_append] at h ⊢
-    exact trimRight_concat p c (h c (by simp))
-
-theorem trimRight_append_noBlank (p s : Str) (hne : s ≠ []) (h : ∀ c ∈ s, c ≠ ' ') :
-    trimRight (p ++ s) = p ++ s := by
-  rcases List.eq_nil_or_concat s with rfl | ⟨q, c, rfl⟩
-  · exact absurd rfl hne
-  · rw [List.concat_eq_append] at h ⊢
-    rw [← List.append_assoc]; exact trimRight_concat _ c (h c (by simp))
-
-theorem padTo_length (n : Nat) (s : Str) (h : s.length ≤ n) : (padTo n s).length = n := by
-  simp only [padTo, List.length_append, List.length_replicate]; omega
-
-theorem padTo_take (n : Nat) (s : Str) (h : s.length ≤ n) : (padTo n s).take n = padTo n s :=
-  List.take_of_length_le (by rw [padTo_length n s h]; exact Nat.le_refl _)
-
-theorem fmtCard_length (c : Card) : (fmtCard c).length = 80 := by
-  unfold fmtCard
-  split <;> (simp only [List.length_take, padTo, List.length_append, List.length_replicate]; omega)
-
-/-- all characters are single bytes -/
-def Lat (s : Str) : Prop := ∀ c ∈ s, c.toNat < 256
-
-theorem chr_byt (c : Char) (h : c.toNat < 256) : chr (byt c) = c := by
-  simp only [chr, byt, UInt8.toNat_ofNat']
-  rw [Nat.mod_eq_of_lt (by simpa using h)]
-  exact Char.ofNat_toNat c
-
-theorem map_chr_map_byt (s : Str) (h : Lat s) : (s.map byt).map chr = s := by
-  induction s with
-  | nil => rfl
-  | cons c r ih =>
-    simp only [List.map_cons, chr_byt c (h c (by simp)), ih (fun d hd => h d (by simp [hd]))]
-
-theorem Lat.append {a b : Str} (ha : Lat a) (hb : Lat b) : Lat (a ++ b) := by
-  intro c hc; rcases List.mem_append.mp hc with h | h
-  · exact ha c h
-  · exact hb c h
-
-theorem Lat.blanks (k : Nat) : Lat (List.replicate k ' ') := by
-  intro c hc; rw [List.mem_replicate] at hc; rw [hc.2]; decide
-
-theorem Lat.take {a : Str} (ha : Lat a) (n : Nat) : Lat (a.take n) :=
-  fun c hc => ha c (List.mem_of_mem_take hc)
-
-theorem Lat.padTo {a : Str} (ha : Lat a) (n : Nat) : Lat (padTo n a) := ha.append (Lat.blanks _)
-
-theorem Lat.ite {p : Prop} [Decidable p] {a b : Str} (ha : Lat a) (hb : Lat b) : Lat (if p then a else b) := by
-  split
-  · exact ha
-  · exact hb
-
-/-- `fmtCard` of single-byte text is single-byte text -/
-theorem Lat.fmtCard {c : Card} (hk : Lat c.key) (hv : Lat c.val) (hc : Lat c.com) : Lat (fmtCard c) := by
-  have hlit : ∀ l : Str, (∀ c ∈ l, c.toNat < 256) → Lat l := fun _ h => h
-  unfold Fits.fmtCard
-  split
-  · exact ((hk.padTo 8).append hc).padTo 80 |>.take 80
-  · have hv' : Lat (if c.val.head? = some '\'' then (if c.com = [] then c.val else Fits.padTo 20 c.val)
-             else List.replicate (20 - c.val.length) ' ' ++ c.val) :=
-      Lat.ite (Lat.ite hv (hv.padTo 20)) ((Lat.blanks _).append hv)
-    have hb := ((hk.padTo 8).append (hlit ['=', ' '] (by decide))).append hv'
-    exact (Lat.ite hb ((hb.append (hlit [' ', '/', ' '] (by decide))).append hc)).padTo 80 |>.take 80
-
-/-! ## 4. cards with a plain (non-string) value -/
-
-/-- a keyword that `parseCard` treats as an ordinary value keyword -/
-structure KeyOK (key : Str) : Prop where
-  len : key.length ≤ 8
-  noBlank : ∀ c ∈ key, c ≠ ' '
-  notCommentary : isCommentary key = false
-  notHier : key ≠ "HIERARCH".toList
-  notCont : key ≠ "CONTINUE".toList
-
-theorem take8_padTo (key X : Str) (h : key.length ≤ 8) : (padTo 8 key ++ X).take 8 = padTo 8 key :=
-  List.take_left' (padTo_length 8 key h)
-
-theorem drop8_padTo (key X : Str) (h : key.length ≤ 8) : (padTo 8 key ++ X).drop 8 = X :=
-  List.drop_left' (padTo_length 8 key h)
-
-theorem trimRight_padTo (n : Nat) (key : Str) (h : ∀ c ∈ key, c ≠ ' ') : trimRight (padTo n key) = key := by
-  unfold padTo; rw [trimRight_append_blanks]; exact trimRight_of_noBlank key h
-
-theorem any_blank_false (key : Str) (h : ∀ c ∈ key, c ≠ ' ') : key.any (fun c => decide (c = ' ')) = false := by
-  simp only [List.any_eq_false, decide_eq_true_eq]; exact h
-
-theorem takeWhile_dropWhile_append (p : Char → Bool) (a b : Str) (ha : ∀ c ∈ a, p c = true)
-    (hb : b = [] ∨ ∃ d t, b = d :: t ∧ p d = false) :
-    (a ++ b).takeWhile p = a ∧ (a ++ b).dropWhile p = b := by
-  induction a with
-  | nil =>
-    rcases hb with rfl | ⟨d, t, rfl, hd⟩
-    · simp
-    · simp [hd]
-  | cons c r ih =>
-    have hc := ha c (by simp)
-    have := ih (fun d hd => ha d (by simp [hd]))
-    simp only [List.cons_append, List.takeWhile_cons, List.dropWhile_cons, hc, if_true, this, and_self]
-
-/-- `parseCard` on `KEY     = <blanks>value<tail>` -/
-theorem parseCard_plain_shape (key val tail : Str) (k : Nat) (hk : KeyOK key)
-    (hv : val ≠ []) (hvc : ∀ c ∈ val, c ≠ ' ' ∧ c ≠ '/') (hvq : val.head? ≠ some '\'')
-    (ht : tail = [] ∨ ∃ t, tail = ' ' :: t) :
-    parseCard (padTo 8 key ++ '=' :: ' ' :: (List.replicate k ' ' ++ val ++ tail))
-      = some ⟨key, val, parseComment tail⟩ := by
-  unfold parseCard
-  simp only [take8_padTo _ _ hk.len, drop8_padTo _ _ hk.len, trimRight_padTo 8 key hk.noBlank]
-  simp only [hk.notHier, hk.notCont, any_blank_false key hk.noBlank, hk.notCommentary]
-  simp only [List.take_succ_cons, List.take_zero, bne_self_eq_false, Bool.or_self, List.drop_succ_cons, List.drop_zero,
-    List.append_assoc, dropWhile_replicate_append (fun x => decide (x = ' ')) (by simp) k]
-  match val, hv with
-  | c0 :: vs, _ =>
-    have h0 := hvc c0 (by simp)
-    have hq : c0 ≠ '\'' := by intro h; subst h; simp at hvq
-    have hp : ∀ c ∈ c0 :: vs, (c != ' ' && c != '/') = true := by
-      intro c hc; have := hvc c hc; simp [this.1, this.2]
-    have htl : tail = [] ∨ ∃ d t, tail = d :: t ∧ (d != ' ' && d != '/') = false := by
-      rcases ht with h | ⟨t, h⟩
-      · exact Or.inl h
-      · exact Or.inr ⟨' ', t, h, by simp⟩
-    have hsplit := takeWhile_dropWhile_append _ (c0 :: vs) tail hp htl
-    have hbody : List.dropWhile (fun x => decide (x = ' ')) (c0 :: (vs ++ tail)) = c0 :: (vs ++ tail) := by
-      simp [h0.1]
-    rw [List.cons_append] at hsplit
-    simp only [List.cons_append, hbody, Bool.false_eq_true, if_false, or_self]
-    split
-    · rename_i heq; cases heq
-    · rename_i heq; injection heq with a b; exact absurd a hq
-    · rename_i heq; injection heq with a b; exact absurd a h0.2
-    · rw [hsplit.1, hsplit.2]
-
-theorem parseComment_blanks (m : Nat) : parseComment (List.replicate m ' ') = [] := by
-  have h := dropWhile_replicate_append (fun x => decide (x = ' ')) (by simp) m []
-  rw [List.append_nil] at h
-  unfold parseComment
-  simp only [h, List.dropWhile_nil]
-  rfl
-
-theorem parseComment_slash (r : Str) : parseComment (' ' :: '/' :: ' ' :: r) = trimRight r := by
-  simp [parseComment]
-
-theorem blanks_shape (m : Nat) : List.replicate m ' ' = [] ∨ ∃ t, List.replicate m ' ' = ' ' :: t := by
-  cases m with
-  | zero => exact Or.inl rfl
-  | succ m => exact Or.inr ⟨_, List.replicate_succ⟩
-
-/-- a fixed-format card whose value is a plain token (integer, logical, ...) -/
-structure PlainOK (c : Card) : Prop where
-  key : KeyOK c.key
-  valNe : c.val ≠ []
-  valChars : ∀ ch ∈ c.val, ch ≠ ' ' ∧ ch ≠ '/'
-  valNoQuote : c.val.head? ≠ some '\''
-  comTrim : trimRight c.com = c.com
-  fits : 10 + max 20 c.val.length + (if c.com = [] then 0 else 3 + c.com.length) ≤ 80
-
-theorem parseCard_fmtCard_plain (c : Card) (h : PlainOK c) : parseCard (fmtCard c) = some c := by
-  obtain ⟨key, val, com⟩ := c
-  obtain ⟨hk, hne, hvc, hvq, hct, hfit⟩ := h
-  simp only at hk hne hvc hvq hct hfit
-  have hk8 := hk.len
-  unfold fmtCard
-  simp only [hk.notCommentary, Bool.false_eq_true, if_false, hvq]
-  by_cases hcom : com = []
-  · subst hcom
-    simp only [if_true] at hfit ⊢
-    rw [padTo_take 80 _ (by simp only [List.length_append, padTo_length 8 key hk8, List.length_replicate, List.length_cons, List.length_nil]; omega)]
-    have : padTo 80 (padTo 8 key ++ ['=', ' '] ++ (List.replicate (20 - val.length) ' ' ++ val))
-        = padTo 8 key ++ '=' :: ' ' :: (List.replicate (20 - val.length) ' ' ++ val ++ List.replicate (80 - (padTo 8 key ++ ['=', ' '] ++ (List.replicate (20 - val.length) ' ' ++ val)).length) ' ') := by
-      simp [padTo]
-    rw [this, parseCard_plain_shape key val _ _ hk hne hvc hvq (blanks_shape _), parseComment_blanks]
-  · simp only [hcom, if_false] at hfit ⊢
-    rw [padTo_take 80 _ (by simp only [List.length_append, padTo_length 8 key hk8, List.length_replicate, List.length_cons, List.length_nil]; omega)]
-    have : padTo 80 (padTo 8 key ++ ['=', ' '] ++ (List.replicate (20 - val.length) ' ' ++ val) ++ [' ', '/', ' '] ++ com)
-        = padTo 8 key ++ '=' :: ' ' :: (List.replicate (20 - val.length) ' ' ++ val ++ (' ' :: '/' :: ' ' :: (com ++ List.replicate (80 - (padTo 8 key ++ ['=', ' '] ++ (List.replicate (20 - val.length) ' ' ++ val) ++ [' ', '/', ' '] ++ com).length) ' '))) := by
-      simp [padTo]
-    rw [this, parseCard_plain_shape key val _ _ hk hne hvc hvq (Or.inr ⟨_, rfl⟩), parseComment_slash,
-      trimRight_append_blanks, hct]
-
-/-! ## 5. the structural cards -/
-
-/-- the card as `encodeHeader` writes it: with the comment cfitsio attaches -/
-def withCom (c : Card) : Card := { c with com := structComment c.key }
-
-/-- what the file-level theorem needs from every card -/
-structure CardRT (c : Card) : Prop where
-  rt : parseCard (fmtCard c) = some c
-  notEnd : c.key ≠ "END".toList
-  lat : Lat (fmtCard c)
-
-theorem digits_props : ∀ c ∈ digits, c ≠ ' ' ∧ c ≠ '/' ∧ c ≠ '\'' ∧ c ≠ '-' ∧ c.toNat < 256 := by decide
-
-theorem Lat.of_digits {s : Str} (h : ∀ c ∈ s, c ∈ digits) : Lat s :=
-  fun c hc => (digits_props c (h c hc)).2.2.2.2
-
-/-- integer-like value text: optional minus sign, digits, at most 20 columns -/
-theorem plainOK_of_digits (key val com : Str) (hk : KeyOK key)
-    (hne : val ≠ []) (hd : ∀ c ∈ val, c ∈ '-' :: digits) (hlen : val.length ≤ 20)
-    (hc : trimRight com = com) (hcl : com.length ≤ 47) : PlainOK ⟨key, val, com⟩ := by
-  have hprops : ∀ c ∈ '-' :: digits, c ≠ ' ' ∧ c ≠ '/' ∧ c ≠ '\'' := by decide
-  refine ⟨hk, hne, fun ch h => ⟨(hprops ch (hd ch h)).1, (hprops ch (hd ch h)).2.1⟩, ?_, hc, ?_⟩
-  · match val, hne with
-    | c :: r, _ =>
-      simp only [List.head?_cons, ne_eq, Option.some.injEq]
-      exact (hprops c (hd c (by simp))).2.2
-  · simp only
-    split <;> omega
-
-theorem keyOK_naxis (i : Nat) (hi : i ≤ 999) : KeyOK ("NAXIS".toList ++ natStr i) := by
-  have hl := natStr_length i 3 (by omega) (by omega)
-  refine ⟨?_, ?_, ?_, ?_, ?_⟩
-  · simp; omega
-  · intro c hc
-    rcases List.mem_append.mp hc with h | h
-    · have : ∀ c ∈ "NAXIS".toList, c ≠ ' ' := by decide
-      exact this c h
-    · exact (digits_props c (natStr_digits i c h)).1
-  · simp [isCommentary]
-  · simp
-  · simp
-
-theorem cardRT_plain (c : Card) (h : PlainOK c) (hend : c.key ≠ "END".toList)
-    (hk : Lat c.key) (hv : Lat c.val) (hc : Lat c.com) : CardRT c :=
-  ⟨parseCard_fmtCard_plain c h, hend, Lat.fmtCard hk hv hc⟩
-
-theorem mem_digits_cons {s : Str} (h : ∀ c ∈ s, c ∈ digits) : ∀ c ∈ s, c ∈ '-' :: digits :=
-  fun c hc => List.mem_cons_of_mem _ (h c hc)
-
-theorem cardRT_naxis (n : Nat) (hn : n ≤ 999) : CardRT (withCom ⟨"NAXIS".toList, natStr n, []⟩) := by
-  have hcom : structComment "NAXIS".toList = "number of data axes".toList := by decide
-  have hl := natStr_length n 3 (by omega) (by omega)
-  simp only [withCom, hcom]
-  apply cardRT_plain
-  · apply plainOK_of_digits
-    · exact ⟨by decide, by decide, by decide, by decide, by decide⟩
-    · exact natStr_ne_nil n
-    · exact mem_digits_cons (natStr_digits n)
-    · omega
-    · decide
-    · decide
-  · show "NAXIS".toList ≠ _; decide
-  · simp only [Lat]; decide
-  · exact Lat.of_digits (natStr_digits n)
-  · simp only [Lat]; decide
-
-theorem structComment_naxisN (i : Nat) :
-    structComment ("NAXIS".toList ++ natStr i) = "length of data axis ".toList ++ natStr i := by
-  have := natStr_ne_nil i
-  simp [structComment, this]
-
-theorem cardRT_naxisN (i a : Nat) (hi : i ≤ 999) (ha : a < 10 ^ 20) :
-    CardRT (withCom ⟨"NAXIS".toList ++ natStr i, natStr a, []⟩) := by
-  have hl := natStr_length i 3 (by omega) (by omega)
-  have hla := natStr_length a 20 (by omega) ha
-  simp only [withCom, structComment_naxisN]
-  apply cardRT_plain
-  · apply plainOK_of_digits
-    · exact keyOK_naxis i hi
-    · exact natStr_ne_nil a
-    · exact mem_digits_cons (natStr_digits a)
-    · exact hla
-    · exact trimRight_append_noBlank _ _ (natStr_ne_nil i)
-        (fun c hc => (digits_props c (natStr_digits i c hc)).1)
-    · simp; omega
-  · simp
-  · exact Lat.append (by simp only [Lat]; decide) (Lat.of_digits (natStr_digits i))
-  · exact Lat.of_digits (natStr_digits a)
-  · exact Lat.append (by simp only [Lat]; decide) (Lat.of_digits (natStr_digits i))
-
-theorem cardRT_concrete (c : Card) (h1 : parseCard (fmtCard c) = some c) (h2 : c.key ≠ "END".toList)
-    (h3 : ∀ ch ∈ fmtCard c, ch.toNat < 256) : CardRT c := ⟨h1, h2, h3⟩
-
-theorem cardRT_bitpix32 : CardRT (withCom ⟨"BITPIX".toList, intStr (-32), []⟩) :=
-  cardRT_concrete _ (by decide) (by decide) (by decide)
-
-theorem cardRT_bitpix64 : CardRT (withCom ⟨"BITPIX".toList, intStr (-64), []⟩) :=
-  cardRT_concrete _ (by decide) (by decide) (by decide)
-
-theorem mem_axisCards {axes : List Nat} {c : Card} (h : c ∈ axisCards axes) :
-    ∃ i, i < axes.length ∧ c = ⟨"NAXIS".toList ++ natStr (i+1), natStr (axes.getD i 0), []⟩ := by
-  simp only [axisCards, List.mem_map, List.mem_range] at h
-  obtain ⟨i, hi, rfl⟩ := h
-  exact ⟨i, hi, rfl⟩
-
-/-- every mandatory card, as written (with its standard comment), survives the 80-column text form -/
-theorem structCards_RT (primary : Bool) (h : Hdu) (hax : h.axes.length ≤ 999) (hlen : ∀ a ∈ h.axes, a < 10 ^ 20) :
-    ∀ c ∈ structCards primary h, CardRT (withCom c) := by
-  intro c hc
-  simp only [structCards, List.mem_append] at hc
-  rcases hc with ((hc | hc) | hc) | hc
-  · cases primary
-    · simp only [Bool.false_eq_true, if_false, List.mem_singleton] at hc; subst hc
-      exact cardRT_concrete _ (by decide) (by decide) (by decide)
-    · simp only [if_true, List.mem_singleton] at hc; subst hc
-      exact cardRT_concrete _ (by decide) (by decide) (by decide)
-  · simp only [List.mem_cons, List.not_mem_nil, or_false] at hc
-    rcases hc with rfl | rfl
-    · cases h.pix
-      · exact cardRT_bitpix32
-      · exact cardRT_bitpix64
-    · exact cardRT_naxis _ hax
-  · obtain ⟨i, hi, rfl⟩ := mem_axisCards hc
-    refine cardRT_naxisN _ _ (by omega) (hlen _ ?_)
-    simp only [List.getD_eq_getElem?_getD, List.getElem?_eq_getElem hi, Option.getD_some]
-    exact List.getElem_mem hi
-  · cases primary
-    · simp only [Bool.false_eq_true, if_false, List.mem_cons, List.not_mem_nil, or_false] at hc
-      rcases hc with rfl | rfl
-      · exact cardRT_concrete _ (by decide) (by decide) (by decide)
-      · exact cardRT_concrete _ (by decide) (by decide) (by decide)
-    · simp at hc
-
-/-! ## 6. headers -/
-
-theorem endCard_length : endCard.length = 80 := by decide
-theorem endCard_lat : Lat endCard := by simp only [Lat]; decide
-theorem parseCard_endCard : parseCard endCard = some ⟨"END".toList, [], []⟩ := by decide
-
-theorem CardRT.ne_end {c : Card} (h : CardRT c) : fmtCard c ≠ endCard := by
-  intro he
-  have h1 := h.rt
-  rw [he, parseCard_endCard] at h1
-  injection h1 with h1
-  exact h.notEnd (by rw [← h1])
-
-/-- `splitHeader` finds the cards, `END`, and skips the blank fill up to the block boundary -/
-theorem splitHeader_cards (p : UInt8) (rest : Bytes) :
-    ∀ (cs : List Str) (n fuel : Nat), (∀ s ∈ cs, s.length = 80 ∧ Lat s ∧ s ≠ endCard) → cs.length < fuel →
-      splitHeader fuel n ((cs.flatMap id).map byt ++ (endCard.map byt ++
-        (List.replicate (blockPad ((n + cs.length + 1) * 80)) p ++ rest))) = some (cs, rest) := by
-  intro cs
-  induction cs with
-  | nil =>
-    intro n fuel _ hf
-    match fuel, hf with
-    | fuel+1, _ =>
-      have hl : (endCard.map byt).length = 80 := by rw [List.length_map, endCard_length]
-      unfold splitHeader
-      simp only [List.flatMap_nil, List.map_nil, List.nil_append, List.length_nil, Nat.add_zero]
-      rw [if_neg (by simp only [List.length_append, hl]; omega)]
-      simp only [List.take_left' hl, List.drop_left' hl, map_chr_map_byt _ endCard_lat, if_true]
-      rw [if_neg (by simp only [List.length_append, List.length_replicate]; omega)]
-      rw [List.drop_left' (List.length_replicate ..)]
-  | cons s cs ih =>
-    intro n fuel hcs hf
-    match fuel, hf with
-    | fuel+1, hf =>
-      obtain ⟨h80, hlat, hne⟩ := hcs s (by simp)
-      have hl : (s.map byt).length = 80 := by rw [List.length_map, h80]
-      have hn : n + (s :: cs).length + 1 = (n + 1) + cs.length + 1 := by simp only [List.length_cons]; omega
-      unfold splitHeader
-      simp only [List.flatMap_cons, id, List.map_append, List.append_assoc]
-      rw [if_neg (by simp only [List.length_append, hl]; omega)]
-      simp only [List.take_left' hl, List.drop_left' hl, map_chr_map_byt _ hlat, if_neg hne]
-      rw [hn, ih (n+1) fuel (fun t ht => hcs t (by simp [ht])) (by simpa using hf)]
-      rfl
-
-theorem mapM'_map {α β} (f : α → Option β) (g : β → α) (l : List β) (h : ∀ b ∈ l, f (g b) = some b) :
-    mapM' f (l.map g) = some l := by
-  induction l with
-  | nil => rfl
-  | cons b r ih =>
-    simp only [List.map_cons, mapM', h b (by simp), ih (fun c hc => h c (by simp [hc])), Option.map_some]
-
-@[simp] theorem withCom_key (c : Card) : (withCom c).key = c.key := rfl
-@[simp] theorem withCom_val (c : Card) : (withCom c).val = c.val := rfl
-
-theorem takeAxes_axis (r : List Card) : ∀ (suf pre : List Nat),
-    takeAxes (pre.length + 1) suf.length
-      ((List.range' pre.length suf.length).map
-        (fun i => withCom ⟨"NAXIS".toList ++ natStr (i+1), natStr ((pre ++ suf).getD i 0), []⟩) ++ r)
-      = some (suf, r) := by
-  intro suf
-  induction suf with
-  | nil => intro pre; simp [takeAxes]
-  | cons a as ih =>
-    intro pre
-    have h := ih (pre ++ [a])
-    simp only [List.length_append, List.length_cons, List.length_nil, List.append_assoc, List.singleton_append,
-      Nat.zero_add] at h
-    simp only [List.length_cons, List.range'_succ, List.map_cons, List.cons_append, takeAxes, cardNat,
-      withCom_key, withCom_val, if_true, parseNat_natStr, h, Option.map_some]
-    simp
-
-theorem takeAxes_axisCards (axes : List Nat) (r : List Card) :
-    takeAxes 1 axes.length ((axisCards axes).map withCom ++ r) = some (axes, r) := by
-  have h := takeAxes_axis r axes []
-  simp only [List.length_nil, Nat.zero_add, List.nil_append] at h
-  rw [← h, axisCards, List.range_eq_range', List.map_map]
-  rfl
-
-theorem parseStruct_primary (c0 c1 c2 : Card) (r r2 : List Card) (bp : Int) (n : Nat) (axes : List Nat)
-    (h0 : c0.key = "SIMPLE".toList) (h0' : c0.val = ['T'])
-    (h1 : c1.key = "BITPIX".toList) (h2 : parseInt c1.val = some bp) (h3 : cardNat c2 "NAXIS".toList = some n)
-    (h4 : takeAxes 1 n r = some (axes, r2)) :
-    parseStruct true (c0 :: c1 :: c2 :: r) = some (bp, axes, r2) := by
-  unfold parseStruct
-  simp only [h0, h0', h1, h2, h3, h4, if_true, and_self, not_true_eq_false, ne_eq, or_self, if_false]
-
-theorem parseStruct_ext (c0 c1 c2 p g : Card) (r r2 : List Card) (bp : Int) (n : Nat) (axes : List Nat)
-    (h0 : c0.key = "XTENSION".toList) (h0' : c0.val = "'IMAGE   '".toList)
-    (h1 : c1.key = "BITPIX".toList) (h2 : parseInt c1.val = some bp) (h3 : cardNat c2 "NAXIS".toList = some n)
-    (h4 : takeAxes 1 n r = some (axes, p :: g :: r2))
-    (h5 : p.key = "PCOUNT".toList) (h5' : p.val = ['0']) (h6 : g.key = "GCOUNT".toList) (h6' : g.val = ['1']) :
-    parseStruct false (c0 :: c1 :: c2 :: r) = some (bp, axes, r2) := by
-  unfold parseStruct
-  simp only [h0, h0', h1, h2, h3, h4, h5, h5', h6, h6', if_true, and_self, not_true_eq_false, ne_eq, or_self,
-    if_false, Bool.false_eq_true]
-
-theorem parseStruct_structCards (primary : Bool) (h : Hdu) (user : List Card) :
-    parseStruct primary ((structCards primary h).map withCom ++ user) = some (h.pix.bitpix, h.axes, user) := by
-  cases primary
-  · simp only [structCards, Bool.false_eq_true, if_false, List.map_append, List.map_cons, List.map_nil,
-      List.append_assoc, List.cons_append, List.nil_append]
-    exact parseStruct_ext _ _ _ _ _ _ _ _ _ _ rfl rfl rfl (parseInt_intStr _)
-      (by simp only [cardNat, withCom_key, withCom_val, if_true, parseNat_natStr])
-      (takeAxes_axisCards _ _) rfl rfl rfl rfl
-  · simp only [structCards, if_true, List.map_cons, List.cons_append, List.nil_append, List.append_nil]
-    exact parseStruct_primary _ _ _ _ _ _ _ _ rfl rfl rfl (parseInt_intStr _)
-      (by simp only [cardNat, withCom_key, withCom_val, if_true, parseNat_natStr])
-      (takeAxes_axisCards _ _)
-
-/-! ## 7. HDUs and files -/
-
-/-- the hypotheses of the file-level theorem, per HDU -/
-structure HduOK (h : Hdu) : Prop where
-  /-- as many pixels as the axes say -/
-  pixLen : h.pix.length = npix h.axes
-  /-- `NAXISnnn` must fit the 8-column keyword field -/
-  naxis : h.axes.length ≤ 999
-  /-- the axis lengths fit the 20-column value field -/
-  axisLen : ∀ a ∈ h.axes, a < 10 ^ 20
-  /-- every non-structural card survives the 80-column text form -/
-  cards : ∀ c ∈ h.cards, CardRT c
-
-/-- all cards of the header as written -/
-def allCards (primary : Bool) (h : Hdu) : List Card := (structCards primary h).map withCom ++ h.cards
-
-theorem allCards_RT (primary : Bool) (h : Hdu) (ok : HduOK h) : ∀ c ∈ allCards primary h, CardRT c := by
-  intro c hc
-  rcases List.mem_append.mp hc with hc | hc
-  · obtain ⟨d, hd, rfl⟩ := List.mem_map.mp hc
-    exact structCards_RT primary h ok.naxis ok.axisLen d hd
-  · exact ok.cards c hc
-
-theorem length_flatMap_80 (l : List Str) (h : ∀ s ∈ l, s.length = 80) : (l.flatMap id).length = l.length * 80 := by
-  induction l with
-  | nil => rfl
-  | cons s r ih =>
-    simp only [List.flatMap_cons, id, List.length_append, List.length_cons, h s (by simp),
-      ih (fun t ht => h t (by simp [ht]))]
-    omega
-
-theorem encodeHeader_eq (primary : Bool) (h : Hdu) :
-    encodeHeader primary h =
-      (((allCards primary h).map fmtCard).flatMap id).map byt ++ (endCard.map byt ++
-        List.replicate (blockPad ((0 + ((allCards primary h).map fmtCard).length + 1) * 80)) (byt ' ')) := by
-  have hl := length_flatMap_80 ((allCards primary h).map fmtCard)
-    (fun s hs => by obtain ⟨c, _, rfl⟩ := List.mem_map.mp hs; exact fmtCard_length c)
-  have hcs : (structCards primary h).map (fun c => fmtCard { c with com := structComment c.key })
-      ++ h.cards.map fmtCard = (allCards primary h).map fmtCard := by
-    simp only [allCards, List.map_append, List.map_map]; rfl
-  unfold encodeHeader
-  simp only [hcs, List.flatMap_append, List.flatMap_cons, List.flatMap_nil, id, List.append_nil, List.map_append,
-    List.append_assoc, List.length_append, List.length_map, hl, endCard_length]
-  congr 4
-  omega
-
-theorem encodeHeader_length_ge (primary : Bool) (h : Hdu) : 2880 ≤ (encodeHeader primary h).length := by
-  rw [encodeHeader_eq]
-  simp only [List.length_append, List.length_map, endCard_length, List.length_replicate, blockPad]
-  have hl := length_flatMap_80 ((allCards primary h).map fmtCard)
-    (fun s hs => by obtain ⟨c, _, rfl⟩ := List.mem_map.mp hs; exact fmtCard_length c)
-  rw [hl]
-  simp only [List.length_map]
-  omega
-
-theorem encodeData_length (p : Pix) :
-    (encodeData p).length = (if p.bitpix = -32 then 4 else 8) * p.length
-      + blockPad ((if p.bitpix = -32 then 4 else 8) * p.length) := by
-  cases p <;> simp [encodeData, enc32_length, enc64_length, Pix.bitpix, Pix.length]
-
-theorem decodeHdu_f32 (primary : Bool) (b rest : Bytes) (raw : List Str) (cs cards : List Card)
-    (axes : List Nat) (d : List UInt32)
-    (h1 : splitHeader (b.length / 80 + 1) 0 b = some (raw, rest)) (h2 : mapM' parseCard raw = some cs)
-    (h3 : parseStruct primary cs = some (-32, axes, cards)) (h4 : dec32 (npix axes) rest = some d)
-    (h5 : ¬ rest.length < 4 * npix axes + blockPad (4 * npix axes)) :
-    decodeHdu primary b
-      = some (⟨axes, cards, .f32 d⟩, rest.drop (4 * npix axes + blockPad (4 * npix axes))) := by
-  unfold decodeHdu
-  simp only [h1, h2, h3, h4, if_true, if_neg h5]
-
-theorem decodeHdu_f64 (primary : Bool) (b rest : Bytes) (raw : List Str) (cs cards : List Card)
-    (axes : List Nat) (d : List UInt64)
-    (h1 : splitHeader (b.length / 80 + 1) 0 b = some (raw, rest)) (h2 : mapM' parseCard raw = some cs)
-    (h3 : parseStruct primary cs = some (-64, axes, cards)) (h4 : dec64 (npix axes) rest = some d)
-    (h5 : ¬ rest.length < 8 * npix axes + blockPad (8 * npix axes)) :
-    decodeHdu primary b
-      = some (⟨axes, cards, .f64 d⟩, rest.drop (8 * npix axes + blockPad (8 * npix axes))) := by
-  unfold decodeHdu
-  have : ¬ ((-64 : Int) = -32) := by decide
-  simp only [h1, h2, h3, h4, if_true, if_neg h5, if_neg this]
-
-/-- one HDU: decoding the encoding gives the HDU back and leaves exactly the bytes that followed -/
-theorem decodeHdu_encodeHdu (primary : Bool) (h : Hdu) (rest : Bytes) (ok : HduOK h) :
-    decodeHdu primary (encodeHdu primary h ++ rest) = some (h, rest) := by
-  have hrt := allCards_RT primary h ok
-  have hsplit : splitHeader ((encodeHdu primary h ++ rest).length / 80 + 1) 0 (encodeHdu primary h ++ rest)
-      = some ((allCards primary h).map fmtCard, encodeData h.pix ++ rest) := by
-    have hlen : (encodeHdu primary h ++ rest).length
-        = (((allCards primary h).map fmtCard).length + 1) * 80
-          + blockPad ((0 + ((allCards primary h).map fmtCard).length + 1) * 80) + (encodeData h.pix ++ rest).length := by
-      have hl := length_flatMap_80 ((allCards primary h).map fmtCard)
-        (fun s hs => by obtain ⟨c, _, rfl⟩ := List.mem_map.mp hs; exact fmtCard_length c)
-      simp only [encodeHdu, encodeHeader_eq, List.length_append, List.length_map, hl, endCard_length,
-        List.length_replicate]
-      omega
-    have := splitHeader_cards (byt ' ') (encodeData h.pix ++ rest) ((allCards primary h).map fmtCard) 0
-      ((encodeHdu primary h ++ rest).length / 80 + 1)
-      (fun s hs => by
-        obtain ⟨c, hc, rfl⟩ := List.mem_map.mp hs
-        exact ⟨fmtCard_length c, (hrt c hc).lat, (hrt c hc).ne_end⟩)
-      (by rw [hlen]; omega)
-    rw [← this, encodeHdu, encodeHeader_eq]
-    simp only [List.append_assoc]
-  have hmap : mapM' parseCard ((allCards primary h).map fmtCard) = some (allCards primary h) :=
-    mapM'_map parseCard fmtCard _ (fun c hc => (hrt c hc).rt)
-  have hstruct := parseStruct_structCards primary h h.cards
-  obtain ⟨axes, cards, pix⟩ := h
-  have hpix := ok.pixLen
-  simp only at hpix hstruct
-  cases pix with
-  | f32 d =>
-    simp only [Pix.length] at hpix
-    have hdata : encodeData (.f32 d) ++ rest
-        = enc32 d ++ (List.replicate (blockPad (4 * npix axes)) 0 ++ rest) := by
-      simp only [encodeData, enc32_length, hpix, List.append_assoc]
-    have hlen : (encodeData (.f32 d) ++ rest).length
-        = (4 * npix axes + blockPad (4 * npix axes)) + rest.length := by
-      rw [hdata]; simp only [List.length_append, enc32_length, List.length_replicate, hpix]; omega
-    rw [decodeHdu_f32 primary _ _ _ _ cards axes d hsplit hmap hstruct
-      (by rw [hdata, ← hpix]; exact dec32_enc32 d _) (by rw [hlen]; omega)]
-    congr 2
-    rw [hdata, ← List.append_assoc]
-    exact List.drop_left' (by simp only [List.length_append, enc32_length, List.length_replicate, hpix])
-  | f64 d =>
-    simp only [Pix.length] at hpix
-    have hdata : encodeData (.f64 d) ++ rest
-        = enc64 d ++ (List.replicate (blockPad (8 * npix axes)) 0 ++ rest) := by
-      simp only [encodeData, enc64_length, hpix, List.append_assoc]
-    have hlen : (encodeData (.f64 d) ++ rest).length
-        = (8 * npix axes + blockPad (8 * npix axes)) + rest.length := by
-      rw [hdata]; simp only [List.length_append, enc64_length, List.length_replicate, hpix]; omega
-    rw [decodeHdu_f64 primary _ _ _ _ cards axes d hsplit hmap hstruct
-      (by rw [hdata, ← hpix]; exact dec64_enc64 d _) (by rw [hlen]; omega)]
-    congr 2
-    rw [hdata, ← List.append_assoc]
-    exact List.drop_left' (by simp only [List.length_append, enc64_length, List.length_replicate, hpix])
-
-theorem encodeHdu_length_ge (p : Bool) (h : Hdu) : 2880 ≤ (encodeHdu p h).length := by
-  have := encodeHeader_length_ge p h
-  simp only [encodeHdu, List.length_append]; omega
-
-theorem encodeAux_length_ge : ∀ (hs : List Hdu) (p : Bool), 2880 * hs.length ≤ (encodeAux p hs).length := by
-  intro hs
-  induction hs with
-  | nil => intro p; simp [encodeAux]
-  | cons h hs ih =>
-    intro p
-    have h1 := encodeHdu_length_ge p h
-    have h2 := ih false
-    simp only [encodeAux, List.length_append, List.length_cons]; omega
-
-theorem decodeAux_encodeAux : ∀ (hs : List Hdu) (p : Bool) (fuel : Nat), (∀ h ∈ hs, HduOK h) → hs.length < fuel →
-    (p = true → hs ≠ []) → decodeAux fuel p (encodeAux p hs) = some hs := by
-  intro hs
-  induction hs with
-  | nil =>
-    intro p fuel _ hf hp
-    match fuel, hf with
-    | fuel+1, _ =>
-      cases p
-      · simp [decodeAux, encodeAux]
-      · exact absurd rfl (hp rfl)
-  | cons h hs ih =>
-    intro p fuel hok hf _
-    match fuel, hf with
-    | fuel+1, hf =>
-      have hne : encodeHdu p h ++ encodeAux false hs ≠ [] := by
-        intro he
-        have h1 := encodeHdu_length_ge p h
-        have h2 := congrArg List.length he
-        simp only [List.length_append, List.length_nil] at h2
-        omega
-      unfold decodeAux
-      simp only [encodeAux, if_neg hne, decodeHdu_encodeHdu p h _ (hok h (by simp)),
-        ih false fuel (fun k hk => hok k (by simp [hk])) (by simpa using hf) (by simp), Option.map_some]
-
-/-- **File-level round trip.**  A non-empty FITS store whose HDUs satisfy `HduOK` is recovered exactly from its
-    byte encoding. -/
-theorem decode_encode (f : Fits) (hne : f ≠ []) (h : ∀ hdu ∈ f, HduOK hdu) : decodeFits (encodeFits f) = some f := by
-  unfold decodeFits encodeFits
-  apply decodeAux_encodeAux f true _ h _ (fun _ => hne)
-  have := encodeAux_length_ge f true
-  omega
-
-/-- `CardRT` from three decidable facts (for concrete cards: `CardRT.of_decide c (by decide) (by decide) (by decide)`) -/
-theorem CardRT.of_decide (c : Card) (h1 : parseCard (fmtCard c) = some c) (h2 : c.key ≠ "END".toList)
-    (h3 : ∀ ch ∈ fmtCard c, ch.toNat < 256) : CardRT c := ⟨h1, h2, h3⟩
-
-/-! ### the hypotheses are satisfiable: a two-HDU file with integer, string, logical and commentary cards -/
-
-def exampleFits : Fits :=
-  [ { axes := [2, 3]
-      cards := primaryBoiler ++
-        [cardStr "TYPE".toList "Spline Coefficient Table".toList [],
-         cardInt "ORDER0".toList 2 "B-Spline Order".toList,
-         cardInt "ORDER1".toList 4294967295 "B-Spline Order".toList,
-         ⟨"PERIOD0".toList, "0.".toList, []⟩,
-         cardStr "NAME".toList "it's".toList []]
-      pix := .f32 [1, 2, 3, 4, 5, 4290772992] },
-    { axes := [3]
-      cards := [cardStr "EXTNAME".toList "KNOTS0".toList []]
-      pix := .f64 [0, 4607182418800017408, 18442240474082181120] } ]
-
-theorem exampleFits_ok : ∀ hdu ∈ exampleFits, HduOK hdu := by
-  have hc : ∀ hdu ∈ exampleFits, ∀ c ∈ hdu.cards,
-      parseCard (fmtCard c) = some c ∧ c.key ≠ "END".toList ∧ ∀ ch ∈ fmtCard c, ch.toNat < 256 := by decide
-  intro hdu hm
-  refine ⟨?_, ?_, ?_, fun c hcm => ⟨(hc hdu hm c hcm).1, (hc hdu hm c hcm).2.1, (hc hdu hm c hcm).2.2⟩⟩
-  · revert hdu; decide
-  · revert hdu; decide
-  · revert hdu; decide
-
-example : decodeFits (encodeFits exampleFits) = some exampleFits :=
-  decode_encode exampleFits (by decide) exampleFits_ok
-
-/-! ## 8. the card classes the library writes -/
-
-theorem intStr_props (v : Int) (hv : v.natAbs < 10 ^ 19) :
-    intStr v ≠ [] ∧ (∀ c ∈ intStr v, c ∈ '-' :: digits) ∧ (intStr v).length ≤ 20 := by
-  have h1 := natStr_ne_nil v.natAbs
-  have h2 := natStr_digits v.natAbs
-  have h3 := natStr_length v.natAbs 19 (by omega) hv
-  unfold intStr
-  split
-  · refine ⟨by simp, ?_, by simp only [List.length_cons]; omega⟩
-    intro c hc
-    rcases List.mem_cons.mp hc with rfl | hc
-    · simp
-    · exact List.mem_cons_of_mem _ (h2 c hc)
-  · exact ⟨h1, mem_digits_cons h2, by omega⟩
-
-/-- integer cards (`fits_write_key(TINT/TLONGLONG)`): value `intStr v`, any comment without trailing blank that
-    fits the card -/
-theorem cardRT_int (key com : Str) (v : Int) (hk : KeyOK key) (hend : key ≠ "END".toList) (hkl : Lat key)
-    (hv : v.natAbs < 10 ^ 19) (hc : trimRight com = com) (hcl : com.length ≤ 47) (hclat : Lat com) :
-    CardRT ⟨key, intStr v, com⟩ := by
-  obtain ⟨h1, h2, h3⟩ := intStr_props v hv
-  refine cardRT_plain _ (plainOK_of_digits key _ com hk h1 h2 h3 hc hcl) hend hkl ?_ hclat
-  intro c hcm
-  have : ∀ c ∈ '-' :: digits, c.toNat < 256 := by decide
-  exact this c (h2 c hcm)
-
-/-- every apostrophe of a quoted-string body is doubled (what `ffs2c` produces) -/
-def quotesDoubled : Str → Bool
-  | [] => true
-  | '\'' :: '\'' :: r => quotesDoubled r
-  | '\'' :: _ => false
-  | _ :: r => quotesDoubled r
-
-theorem scanQuoted_doubled (tail : Str) (ht : tail = [] ∨ ∃ t, tail = ' ' :: t) (body : Str) :
-    quotesDoubled body = true → scanQuoted (body ++ '\'' :: tail) = some (body ++ ['\''], tail) := by
-  fun_induction quotesDoubled body with
-  | case1 =>
-    intro _
-    rcases ht with rfl | ⟨t, rfl⟩ <;> rfl
-  | case2 r ih =>
-    intro h
-    simp only [List.cons_append, scanQuoted, ih h, Option.map_some]
-  | case3 r hr =>
-    intro h; cases h
-  | case4 c r h1 h2 ih =>
-    intro h
-    have := ih h
-    rw [List.cons_append]
-    unfold scanQuoted
-    split
-    · rename_i heq; cases heq
-    · rename_i heq; injection heq with a b; exact absurd a h2
-    · rename_i heq; injection heq with a b; exact absurd a h2
-    · rename_i heq; injection heq with a b; subst a; subst b
-      rw [this]; rfl
-
-theorem quotesDoubled_of_noQuote (body : Str) (h : ∀ c ∈ body, c ≠ '\'') : quotesDoubled body = true := by
-  induction body with
-  | nil => rfl
-  | cons c r ih =>
-    have hc : c ≠ '\'' := h c (by simp)
-    have := ih (fun d hd => h d (by simp [hd]))
-    unfold quotesDoubled
-    split
-    · rename_i heq; cases heq
-    · rename_i heq; injection heq with a b; exact absurd a hc
-    · rename_i heq; injection heq with a b; exact absurd a hc
-    · rename_i heq; injection heq with a b; subst b; exact this
-
-/-- `parseCard` on `KEY     = 'body'<tail>` -/
-theorem parseCard_string_shape (key body tail : Str) (hk : KeyOK key) (hb : quotesDoubled body = true)
-    (ht : tail = [] ∨ ∃ t, tail = ' ' :: t) :
-    parseCard (padTo 8 key ++ '=' :: ' ' :: '\'' :: (body ++ '\'' :: tail))
-      = some ⟨key, '\'' :: (body ++ ['\'']), parseComment tail⟩ := by
-  unfold parseCard
-  simp only [take8_padTo _ _ hk.len, drop8_padTo _ _ hk.len, trimRight_padTo 8 key hk.noBlank]
-  simp only [hk.notHier, hk.notCont, any_blank_false key hk.noBlank, hk.notCommentary]
-  have hbody : List.dropWhile (fun x => decide (x = ' ')) ('\'' :: (body ++ '\'' :: tail))
-      = '\'' :: (body ++ '\'' :: tail) := by simp
-  simp only [List.take_succ_cons, List.take_zero, bne_self_eq_false, Bool.or_self, List.drop_succ_cons,
-    List.drop_zero, hbody, Bool.false_eq_true, if_false, or_self, scanQuoted_doubled tail ht body hb]
-
-/-- a fixed-format string card: quoted value whose apostrophes are all doubled (`quotesDoubled_of_noQuote` for
-    a body without apostrophes), optional comment -/
-structure StringOK (c : Card) (body : Str) : Prop where
-  key : KeyOK c.key
-  val : c.val = '\'' :: (body ++ ['\''])
-  doubled : quotesDoubled body = true
-  comTrim : trimRight c.com = c.com
-  fits : if c.com = [] then 10 + c.val.length ≤ 80 else 10 + max 20 c.val.length + 3 + c.com.length ≤ 80
-
-theorem parseCard_fmtCard_string (c : Card) (body : Str) (h : StringOK c body) : parseCard (fmtCard c) = some c := by
-  obtain ⟨key, val, com⟩ := c
-  obtain ⟨hk, hval, hb, hct, hfit⟩ := h
-  simp only at hk hval hb hct hfit
-  subst hval
-  have hk8 := hk.len
-  unfold fmtCard
-  simp only [hk.notCommentary, Bool.false_eq_true, if_false, List.head?_cons, if_true]
-  by_cases hcom : com = []
-  · subst hcom
-    simp only [if_true] at hfit ⊢
-    rw [padTo_take 80 _ (by simp only [List.length_append, padTo_length 8 key hk8, List.length_cons, List.length_nil] at hfit ⊢; omega)]
-    have : padTo 80 (padTo 8 key ++ ['=', ' '] ++ '\'' :: (body ++ ['\'']))
-        = padTo 8 key ++ '=' :: ' ' :: '\'' :: (body ++ '\'' :: List.replicate (80 - (padTo 8 key ++ ['=', ' '] ++ '\'' :: (body ++ ['\''])).length) ' ') := by
-      simp [padTo]
-    rw [this, parseCard_string_shape key body _ hk hb (blanks_shape _), parseComment_blanks]
-  · simp only [hcom, if_false] at hfit ⊢
-    rw [padTo_take 80 _ (by simp only [List.length_append, padTo, List.length_replicate, List.length_cons, List.length_nil] at hfit ⊢; omega)]
-    have : padTo 80 (padTo 8 key ++ ['=', ' '] ++ padTo 20 ('\'' :: (body ++ ['\''])) ++ [' ', '/', ' '] ++ com)
-        = padTo 8 key ++ '=' :: ' ' :: '\'' :: (body ++ '\'' :: (List.replicate (20 - ('\'' :: (body ++ ['\''])).length) ' ' ++ ' ' :: '/' :: ' ' :: (com ++ List.replicate (80 - (padTo 8 key ++ ['=', ' '] ++ padTo 20 ('\'' :: (body ++ ['\''])) ++ [' ', '/', ' '] ++ com).length) ' '))) := by
-      simp [padTo]
-    have hshape : ∀ (k : Nat) (t : Str), (List.replicate k ' ' ++ ' ' :: t = [] ∨ ∃ u, List.replicate k ' ' ++ ' ' :: t = ' ' :: u) := by
-      intro k t
-      cases k with
-      | zero => exact Or.inr ⟨t, rfl⟩
-      | succ k => exact Or.inr ⟨_, by rw [List.replicate_succ, List.cons_append]⟩
-    have hpc : ∀ (k : Nat) (r : Str), parseComment (List.replicate k ' ' ++ ' ' :: '/' :: ' ' :: r) = trimRight r := by
-      intro k r
-      unfold parseComment
-      rw [dropWhile_replicate_append _ (by simp)]
-      simp
-    rw [this, parseCard_string_shape key body _ hk hb (hshape _ _), hpc, trimRight_append_blanks, hct]
-
-theorem cardRT_string (c : Card) (body : Str) (h : StringOK c body) (hend : c.key ≠ "END".toList)
-    (hk : Lat c.key) (hv : Lat c.val) (hc : Lat c.com) : CardRT c :=
-  ⟨parseCard_fmtCard_string c body h, hend, Lat.fmtCard hk hv hc⟩
-
-/-- commentary cards (`COMMENT`, `HISTORY`, blank keyword): free text in columns 9-80 -/
-theorem cardRT_commentary (key com : Str) (hk : isCommentary key = true) (hc : trimRight com = com)
-    (hcl : com.length ≤ 72) (hclat : Lat com) : CardRT ⟨key, [], com⟩ := by
-  have hkeys : key = "COMMENT".toList ∨ key = "HISTORY".toList ∨ key = [] := by
-    simpa [isCommentary, or_assoc] using hk
-  have hfacts : key.length ≤ 8 ∧ trimRight (padTo 8 key) = key ∧ key ≠ "HIERARCH".toList ∧ key ≠ "CONTINUE".toList
-      ∧ key.any (· = ' ') = false ∧ key ≠ "END".toList ∧ Lat key := by
-    rcases hkeys with rfl | rfl | rfl <;> (simp only [Lat]; decide)
-  obtain ⟨h8, htr, hh, hcn, hany, hend, hlat⟩ := hfacts
-  refine ⟨?_, hend, Lat.fmtCard hlat (fun _ h => by simp at h) hclat⟩
-  unfold fmtCard
-  simp only [hk, if_true]
-  rw [padTo_take 80 _ (by simp only [List.length_append, padTo_length 8 key h8]; omega)]
-  have : padTo 80 (padTo 8 key ++ com) = padTo 8 key ++ (com ++ List.replicate (80 - (padTo 8 key ++ com).length) ' ') := by
-    simp [padTo]
-  rw [this]
-  unfold parseCard
-  simp only [take8_padTo _ _ h8, drop8_padTo _ _ h8, htr, hh, hcn, hany, hk, Bool.true_or, if_true,
-    trimRight_append_blanks, hc]
-  simp
-
-/-! ### instances: what `write_fits_core` puts into a header -/
-
-example : CardRT (cardInt "ORDER0".toList 4294967295 "B-Spline Order".toList) :=
-  cardRT_int _ _ _ ⟨by decide, by decide, by decide, by decide, by decide⟩ (by decide) (by simp only [Lat]; decide)
-    (by decide) (by decide) (by decide) (by simp only [Lat]; decide)
-
-example : CardRT (cardStr "NAME".toList "it's".toList []) :=
-  cardRT_string _ "it''s   ".toList
-    ⟨⟨by decide, by decide, by decide, by decide, by decide⟩, by decide, by decide, by decide, by decide⟩
-    (by decide) (by simp only [Lat]; decide) (by simp only [Lat]; decide) (by simp only [Lat]; decide)
-
-example : ∀ c ∈ primaryBoiler, CardRT c := by
-  have : ∀ c ∈ primaryBoiler,
-      parseCard (fmtCard c) = some c ∧ c.key ≠ "END".toList ∧ ∀ ch ∈ fmtCard c, ch.toNat < 256 := by decide
-  exact fun c hc => ⟨(this c hc).1, (this c hc).2.1, (this c hc).2.2⟩
-
-end PsV.Fits.Codec
->>>>>>> wip-C06
